@@ -7,6 +7,11 @@ ALL = ["C%02d" % i for i in range(1, 21)]
 
 # id -> (category, technique, level text, level note, design ref, engine)
 CHECKS = {
+ "C07": ("model_checking",
+         "exhaustive enumeration of raw request targets (all segment sequences up to length 4/5 over a 13-segment alphabet, with/without trailing slash) against the real server binary for folder and tar roots, at / and under URL prefixes",
+         "Every sequence of <= 4 (quick; <= 5 thorough) segments over {a.txt, d, e.txt, canary.txt, ., .., empty, %2e%2e, %2E., ..%2f, %5c.., root name, sibling name}, with and without trailing slash, plus absolute-path smuggling and encoded-traversal targets, is sent as a raw request target to four mounts (folder at /, tar at /, folder under /assets, tar under /tarassets) - 248k requests. A 200 body (decoded by Content-Encoding) must equal the file inside the root that the path resolves to and must never contain one of five canaries placed next to, above and beside the root (incl. a sibling directory whose name starts with the root's name); plain paths to existing files must be served; every answer is a complete response.",
+         "File-system resolution is modelled lexically (the fixture has no symlinks); the server does not percent-decode, so encoded segments are literal names. Symlinks inside the root are outside the quantifier.",
+         "3/C07", "E-http"),
  "C05": ("model_checking",
          "bounded-exhaustive enumeration of HTTP requests (Accept-Encoding subsets/orders/case/weights x coordinate classes x extensions x server modes) against the real server binary through a raw socket client",
          "The real `versatiles serve` binary is started in 7 modes (best, --fast, --flip-y, --swap-xy, --override-input-compression gzip alone / with --flip-y / with --swap-xy --fast) over 8 sources (versatiles x 3 stored compressions x {pbf,png}, mbtiles, pmtiles); per source: Accept-Encoding absent + all 32 subsets of {gzip,br,deflate,identity,zstd} + 10 reversed pairs, x 3 letter cases x 3 weight forms; 30 coordinate classes (stored, absent, x/y = 2^z, 2^32-1, 2^32, z 31/32/255/256, non-numeric, negative, spaces, encoded) x 4 extensions x 3 Accept-Encoding values; 9 degenerate paths; every request twice on keep-alive connections (43k requests). 200 iff the source holds the tile; body decoded by Content-Encoding equals the stored tile decoded; Content-Type is the media type; Content-Encoding absent or offered by the client; otherwise 404 (400 for non-numeric; either for z 32..255) as a complete response, never a dropped connection.",
